@@ -789,6 +789,33 @@ func c18Sweep(r *core.Rec, rname string, mk func() fhir.Resource) {
 						}, vm, core.W{"path": src})
 				}
 			}
+			// Replace an element by ITSELF (the caller read it, perhaps looked at it, and writes it back): the value shares
+			// its memory with the target; the operation succeeds and nothing changes
+			if src, ok := spellings["indexed"]; ok {
+				attempt("replace", "indexed", shape, "the-element-itself", func(w fhir.Resource) error {
+					got := lib.Run(src, []fhir.Resource{w}, nil)
+					if !got.OK() || len(got.Coll) != 1 {
+						return fmt.Errorf("harness: %s does not select one element: %s", src, got.String())
+					}
+					self, isBase := got.Coll[0].(fhir.Base)
+					if !isBase {
+						return fmt.Errorf("harness: %s is not an element", src)
+					}
+					return patch.Replace(w, src, self)
+				}, func(m protoreflect.Message) bool { return true }, nil, core.W{"path": src, "value": "the element the path selects"})
+			}
+			// Insert takes the path of the LIST: a path that names one element of a list of several, or a part of the list,
+			// is refused and nothing changes
+			if src, ok := spellings["indexed"]; ok && n.fd != nil && n.fd.IsList() && len(sibs) > 1 && !n.choice {
+				val := c18OtherValue(n.msg, salt).(fhir.Base)
+				attempt("insert", "element-path", shape, "same-type", func(w fhir.Resource) error { return patch.Insert(w, src, val, 0) }, func(protoreflect.Message) bool { return false }, val, core.W{"path": src, "index": 0})
+				if n.idx == 0 {
+					for _, tailForm := range []string{".tail()", ".skip(1)", ".last()"} {
+						sub := listPath + tailForm
+						attempt("insert", "part-of-list-path", shape, "same-type", func(w fhir.Resource) error { return patch.Insert(w, sub, val, 0) }, func(protoreflect.Message) bool { return false }, val, core.W{"path": sub, "index": 0})
+					}
+				}
+			}
 			// a path that selects several elements must not be deleted / replaced
 			if n.idx == 0 && len(sibs) > 1 {
 				attempt("delete", "multi-item-path", shape, "-", func(w fhir.Resource) error { return patch.Delete(w, listPath) }, func(protoreflect.Message) bool { return false }, nil, core.W{"path": listPath})
